@@ -776,7 +776,26 @@ static void DecodeMPY(Word Index) {
         ;
     else if (DecodeAdr(&ArgStr[ArgCnt], MModAcc)) {
         DestAcc = (*AdrVals) << 8;
-        if (ArgCnt == 3) {
+        if ((ArgCnt == 3) && (*ArgStr[2].str.p_str == '#')) /* MPY Smem, #lk, dst */
+        {
+            if (ThisPar) {
+                WrError(ErrNum_ParNotPossible);
+            } else {
+                OpSize = SInt16;
+                if (DecodeAdr(&ArgStr[2], MModImm)) {
+                    Word Const = *AdrVals;
+
+                    if (DecodeAdr(&ArgStr[1], MModMem)) {
+                        WAsmCode[0] = 0x6200 | DestAcc | AdrVals[0];
+                        if (AdrCnt) {
+                            WAsmCode[1] = AdrVals[1];
+                        }
+                        WAsmCode[1 + AdrCnt] = Const;
+                        CodeLen              = 2 + AdrCnt;
+                    }
+                }
+            }
+        } else if (ArgCnt == 3) {
             Word XMode;
 
             if (ThisPar) {
